@@ -12,10 +12,11 @@ git -C "$WT" apply "$P" || { echo "PATCH DOES NOT APPLY"; exit 4; }
 if [ -n "$DEMO" ]; then
   ( cd "$WT" && PYTHONPATH="$WT" /venv/bin/python "$(readlink -f "$DEMO")" >/dev/null 2>&1 ) && { echo "DEMO PASSES WITH THE CHANGE (not a breaking change?)"; exit 4; }
 fi
-cd /verif && VERIF_REPO="$WT" ./check "$ID" --tier "$TIER" > "/var/tmp/verif_mut_$$.log" 2>&1
+OUT=/var/tmp/verif_mut_$$_out; mkdir -p "$OUT"
+cd /verif && VERIF_REPO="$WT" VERIF_OUT="$OUT" ./check "$ID" --tier "$TIER" > "/var/tmp/verif_mut_$$.log" 2>&1
 rc=$?
 grep -E "^VIOLATION|class=|MACHINERY" "/var/tmp/verif_mut_$$.log" | head -8
 tail -1 "/var/tmp/verif_mut_$$.log"
-rm -f "/var/tmp/verif_mut_$$.log"
+rm -f "/var/tmp/verif_mut_$$.log"; rm -rf "$OUT"
 if [ $rc -eq 1 ]; then echo "DETECTED"; exit 0; fi
 echo "MISSED (check exit $rc)"; exit 3
